@@ -238,6 +238,9 @@ pub fn build_table_from_data(
             max_symbol = idx;
         }
     }
+    // The table needs room for at least two symbols: if the data only ever uses symbol 0
+    // the probabilities have nowhere to be redistributed to (see avoid_0_numbit)
+    let max_symbol = max_symbol.max(1);
     build_table_from_counts(&counts[..=max_symbol], max_log, avoid_0_numbit)
 }
 
